@@ -24,11 +24,12 @@ CONFIGS = {
     # name: cargo feature arguments
     "default+bzip2": ["--features", "bzip2-compression"],
     "no-default": ["--no-default-features"],
-    "sigmeta-only": ["--no-default-features", "--features", "signature-meta"],
+    # note: `--no-default-features --features signature-meta` does not compile on the pinned tree
+    # (decode_sig is cfg(signature-pgp) but used under cfg(signature-meta)); it is not analysed.
     "default": [],
 }
 QUICK_CONFIGS = ["default+bzip2"]
-THOROUGH_CONFIGS = ["default+bzip2", "default", "no-default", "sigmeta-only"]
+THOROUGH_CONFIGS = ["default+bzip2", "default", "no-default"]
 
 
 class InfraError(Exception):
